@@ -6,6 +6,7 @@ import (
 	"math/rand/v2"
 	"net/netip"
 	"os"
+	"slices"
 	"sort"
 	"strings"
 	"sync"
@@ -258,6 +259,40 @@ func (x *exec) runOps(c *udpsvc.Client, ops []planOp, gf int) {
 			if gf > 0 {
 				x.garbageFirst(c, gf)
 			}
+		case "relayswitch":
+			// talk to another local address of the relay: one echo (a reply batch of one), then the
+			// destination sends a burst of replies (a larger batch) - all must leave from the new address
+			addrs := x.spec.RelayAddrs
+			c.SetServer(addrs[len(c.Epochs())%len(addrs)])
+			if !x.paceTo(c, o.Dest, o.Fill, "after switching the relay address") {
+				return
+			}
+			x.w.Flood(c.ID, o.N, 0, nil)
+			time.Sleep(15 * time.Millisecond)
+			kind := "nat"
+			if udpsvc.IsSS2022(x.p.ServerProto) {
+				kind = "ss2022"
+			}
+			x.label("relay-switch:" + kind + ":" + x.p.BatchMode)
+		case "freshburst":
+			// a new client address whose first datagrams arrive as one burst while the session is being set
+			// up; some of them cannot be sent by the relay (target port 0)
+			c.Rebind()
+			if gf > 0 {
+				x.garbageFirst(c, gf)
+			}
+			dests := make([]int, o.N)
+			fills := make([]int, o.N)
+			for i := range dests {
+				dests[i] = o.Dest
+				if i >= 3 && (i%4 == 3 || i%7 == 5) {
+					dests[i] = o.Alt
+				}
+				fills[i] = (o.Fill + 37*i) % 1300
+			}
+			c.BurstFills(dests, fills)
+			x.paceTo(c, o.Dest, o.Fill, "after a burst with unsendable datagrams")
+			x.label("burst-with-unsendable:" + x.p.BatchMode)
 		case "paced":
 			for i := 0; i < o.N && !x.abort.Load(); i++ {
 				d := o.Dest
@@ -333,6 +368,9 @@ func runPlan(p *plan, workDir string) (out outcome) {
 	for i, d := range p.Dests {
 		name := ""
 		switch {
+		case d.Port0:
+			w.AddDestPort0(d.Sock)
+			continue
 		case d.AltPort:
 			// the very same name as another dest, other port
 			w.AddDestAltPort(d.Sock, w.Dests[d.SameAs].Name)
@@ -357,7 +395,7 @@ func runPlan(p *plan, workDir string) (out outcome) {
 	w.SetDropFirst(p.DropFirst)
 
 	spec := &udpsvc.Spec{ServerProto: p.ServerProto, BatchMode: p.BatchMode, NATTimeout: "60s",
-		RelayBatchSize: p.RelayBatch, ServerRecvBatchSize: p.RecvBatch, ClientProto: p.ClientProto}
+		RelayBatchSize: p.RelayBatch, ServerRecvBatchSize: p.RecvBatch, ClientProto: p.ClientProto, ListenWildcard: p.Wildcard}
 	x.spec = spec
 	if udpsvc.IsSS2022(p.ServerProto) {
 		spec.ServerKeys = keysFor(p.ServerProto, p.ServerEIH, p.Seed, 1)
@@ -588,6 +626,7 @@ func (x *exec) judge(out *outcome, fail func(sig, format string, args ...any)) {
 	owner := map[uint16]skey{}
 	socksUsed := map[uint16]map[int]bool{} // session -> target sockets reached
 	nameUsed := false
+	seen := map[[2]uint32]int{}
 	for _, a := range w.Arrivals() {
 		where := fmt.Sprintf("target socket %d (%s)", a.Sock, "")
 		if a.Sock >= 0 {
@@ -613,6 +652,11 @@ func (x *exec) judge(out *outcome, fail func(sig, format string, args ...any)) {
 			continue
 		}
 		c := x.clients[t.Session]
+		seen[[2]uint32{uint32(t.Session), t.Seq}]++
+		if n, m := seen[[2]uint32{uint32(t.Session), t.Seq}], c.Transmissions(t.Seq); n > m {
+			fail("duplicate-delivery", "%s received session %d seq %d for the %d. time, the client put it on the wire %d time(s) (from %s)", where, t.Session, t.Seq, n, m, a.From)
+			continue
+		}
 		dest, fill, sent := c.SentInfo(t.Seq)
 		if !sent || dest != int(t.Target) || fill != int(t.Fill) {
 			fail("payload-modified", "%s received %+v which session %d never sent (sent=%v dest=%d fill=%d)", where, t, t.Session, sent, dest, fill)
@@ -665,8 +709,8 @@ func (x *exec) judge(out *outcome, fail func(sig, format string, args ...any)) {
 	for _, c := range x.clients {
 		for _, r := range c.Replies() {
 			at := fmt.Sprintf("session %d socket %d (%s)", c.ID, r.SockIdx, c.LocalAddr(r.SockIdx))
-			if r.From != x.spec.ServerAddr {
-				fail("reply-foreign-sender", "%s received a datagram from %s, not from the relay %s", at, r.From, x.spec.ServerAddr)
+			if !slices.Contains(x.spec.RelayAddrs, r.From) {
+				fail("reply-foreign-sender", "%s received a datagram from %s, not from the relay %v", at, r.From, x.spec.RelayAddrs)
 				continue
 			}
 			if r.Err != nil {
@@ -692,6 +736,19 @@ func (x *exec) judge(out *outcome, fail func(sig, format string, args ...any)) {
 			sentIdx, ok := c.SentOn(t.Seq)
 			if !ok {
 				fail("reply-undecodable", "%s received a reply to seq %d that was never sent", at, t.Seq)
+				continue
+			}
+			// the reply must leave from the relay address this client talked to when it sent the seq, or
+			// from one it switched to later - never from one it had abandoned before
+			eps, e0, fromOK := c.Epochs(), c.SentTo(t.Seq), false
+			for e := e0; e < len(eps); e++ {
+				if eps[e] == r.From {
+					fromOK = true
+				}
+			}
+			if !fromOK {
+				fail("reply-from-abandoned-relay-address", "%s: the reply to seq %d came from relay address %s, but that datagram was sent to %s (relay addresses used by this client in order: %v)",
+					at, t.Seq, r.From, eps[e0], eps)
 				continue
 			}
 			if r.SockIdx < sentIdx || (!ss && r.SockIdx != sentIdx) {
@@ -762,6 +819,9 @@ func (x *exec) finishEvidence(out *outcome) {
 	}
 	if p.TargetOnly {
 		out.labels = append(out.labels, "tunnel-target-only")
+	}
+	if p.Wildcard != "" {
+		out.labels = append(out.labels, "wildcard-listener:"+p.Wildcard)
 	}
 	if p.ClientEIH {
 		out.labels = append(out.labels, "client-eih")
